@@ -970,3 +970,132 @@ fn c04_capacity_arithmetic() {
     kani::cover!(true, "end reached");
     std::mem::forget(st);
 }
+
+// ================================================================================================
+// Admission decision and victim choice for ALL weights: Cache::admit is read-only, so weights,
+// candidate weight and sketch contents can all be symbolic here (the whole-operation queries above
+// use concrete weight classes).
+// ================================================================================================
+fn admit_lemma(n: usize) {
+    // residents with a SYMBOLIC weigher table; the entries' stored weights are irrelevant to admit(),
+    // which re-weighs every potential victim through the weigher (as the real insert path does)
+    let wsym: [u32; MAXN] = kani::any();
+    let mut st = build::<IdH>(&cfg(n, Some(0), false, W1, false, false, WO_ID, false));
+    let wt2 = wsym;
+    st.c.weigher = Some(Box::new(move |k: &u8, _v: &Val| wt2[*k as usize]));
+    let cw: u32 = kani::any();
+    let ch: u8 = kani::any();
+    kani::assume((ch as usize) < MAXN);
+    let mut cand = EntrySizeAndFrequency::new(cw as u64);
+    cand.add_frequency(&st.c.frequency_sketch, IdH::h(ch));
+    let fc = st.c.frequency_sketch.frequency(IdH::h(ch)) as u32;
+    let mut f = [0u32; MAXN];
+    let mut i = 0;
+    while i < n { f[i] = st.c.frequency_sketch.frequency(IdH::h(i as u8)) as u32; i += 1; }
+    let r = { let C { cache, deques, frequency_sketch, weigher, .. } = &mut st.c; C::<IdH>::admit(&cand, cache, deques, frequency_sketch, weigher) };
+    // reference: shortest LRU prefix whose weight covers the candidate's
+    let mut pw = 0u64; let mut pf = 0u32; let mut nv = 0usize;
+    let mut i = 0;
+    while i < n { if pw < cw as u64 { pw += wsym[i] as u64; pf += f[i]; nv = i + 1; } i += 1; }
+    let want = pw >= cw as u64 && fc > pf;
+    match r {
+        AdmissionResult::Admitted { victim_nodes, victims_weight } => {
+            assert!(want, "C13: admitted although no covering LRU prefix exists or the candidate is not strictly more popular than it");
+            assert!(victim_nodes.len() == nv, "C12,C13: victims are not the SHORTEST sufficient LRU prefix");
+            assert!(victims_weight == pw, "C10,C13: victims_weight is not the summed weight of the victims");
+            let (nodes, _, _) = dq::walk::<KeyHashDate<u8>, MAXN>(&st.c.deques.probation);
+            let mut i = 0;
+            while i < MAXN { if i < nv { assert!(Some(victim_nodes[i]) == nodes[i], "C12: victims are not the least recently used residents in LRU order"); } i += 1; }
+            std::mem::forget(victim_nodes);
+        }
+        AdmissionResult::Rejected => assert!(!want, "C13: rejected although the covering LRU prefix is strictly less popular"),
+    }
+    kani::cover!(want && nv == n && n > 0, "admitted over all residents");
+    kani::cover!(want && nv == 0, "zero-weight candidate admitted without victims");
+    kani::cover!(!want && pw >= cw as u64, "rejected on popularity");
+    kani::cover!(!want && pw < cw as u64, "rejected: no covering prefix");
+    std::mem::forget(st);
+}
+#[kani::proof]
+#[kani::unwind(6)]
+fn admit_lemma_n1() { admit_lemma(1) }
+#[kani::proof]
+#[kani::unwind(6)]
+fn admit_lemma_n2() { admit_lemma(2) }
+#[kani::proof]
+#[kani::unwind(6)]
+fn admit_lemma_n3() { admit_lemma(3) }
+
+/// evict_lru_entries for ALL weights and capacities: removes exactly the shortest LRU prefix whose
+/// weight covers the excess; counters follow; nothing else changes.
+fn evict_lru_lemma(n: usize) {
+    let wsym: [u32; MAXN] = kani::any();
+    let cap: u64 = kani::any();
+    let mut st = build::<IdH>(&cfg(n, Some(0), false, W1, false, false, WO_ID, false));
+    st.c.max_capacity = Some(cap);
+    let mut ws = 0u64;
+    let mut i = 0;
+    while i < n {
+        st.c.cache.get_mut(&(i as u8)).unwrap().set_policy_weight(wsym[i]);
+        ws += wsym[i] as u64;
+        i += 1;
+    }
+    st.c.weighted_size = ws;
+    st.c.evict_lru_entries();
+    let need = ws.saturating_sub(cap);
+    let mut freed = 0u64; let mut nv = 0usize;
+    let mut i = 0;
+    while i < n { if freed < need { freed += wsym[i] as u64; nv = i + 1; } i += 1; }
+    let mut i = 0;
+    while i < MAXN {
+        if i < n {
+            let present = st.c.cache.get(&(i as u8)).is_some();
+            assert!(present == (i >= nv), "C12,C04: evict_lru_entries must remove exactly the shortest LRU prefix covering the excess");
+        }
+        i += 1;
+    }
+    assert!(st.c.entry_count == (n - nv) as u64 && st.c.weighted_size == ws - freed, "C10: counters after eviction");
+    assert!(st.c.weighted_size <= cap || nv == n, "C04: excess removed (or cache emptied)");
+    let (_, an, ok) = dq::walk::<KeyHashDate<u8>, MAXN>(&st.c.deques.probation);
+    assert!(ok && an == n - nv, "C08,C11: evicted entries' nodes unlinked");
+    kani::cover!(nv == n && n > 0, "everything evicted");
+    kani::cover!(nv == 0 && n > 0, "nothing evicted");
+    if n >= 2 { kani::cover!(nv == 1 && freed == need && need > 0, "exact fit with one victim"); }
+    std::mem::forget(st);
+}
+#[kani::proof]
+#[kani::unwind(6)]
+fn evict_lru_lemma_n1() { evict_lru_lemma(1) }
+#[kani::proof]
+#[kani::unwind(6)]
+fn evict_lru_lemma_n2() { evict_lru_lemma(2) }
+#[kani::proof]
+#[kani::unwind(6)]
+fn evict_lru_lemma_n3() { evict_lru_lemma(3) }
+
+/// handle_update for ALL old/new weights: weighted_size moves by exactly (new - old), saturating.
+#[kani::proof]
+#[kani::unwind(6)]
+fn handle_update_lemma_n2() {
+    let mut st = build::<IdH>(&cfg(2, Some(0), false, W1, false, false, WO_ID, false));
+    let (old_w, new_w): (u32, u32) = (kani::any(), kani::any());
+    let ws0: u64 = kani::any();
+    kani::assume(ws0 < (1u64 << 40) && ws0 >= old_w as u64);
+    st.c.weighted_size = ws0;
+    // what insert() did before calling handle_update: the new entry is in the map, the old one is handed over
+    let key = 0u8;
+    let rc = key_rc(&st.c, key);
+    let nv = Val { cls: 1, data: kani::any() };
+    let mut old = st.c.cache.insert(rc.clone(), ValueEntry::new(nv, new_w)).unwrap();
+    old.set_policy_weight(old_w);
+    st.c.handle_update(rc, None, new_w, old);
+    assert!(st.c.weighted_size == (ws0 - old_w as u64).saturating_add(new_w as u64), "C10,C04: an update must move weighted_size by exactly (new weight - old weight)");
+    assert!(st.c.entry_count == 2, "C10: an update must not change entry_count");
+    let e = st.c.cache.get(&key).unwrap();
+    assert!(e.value == nv && e.policy_weight() == new_w, "C01,C10: updated entry holds the new value and weight");
+    let (nodes, an, ok) = dq::walk::<KeyHashDate<u8>, MAXN>(&st.c.deques.probation);
+    assert!(ok && an == 2 && nodes[1] == e.access_order_q_node().map(|t| t.decompose().0), "C12: an update makes the entry most recently used");
+    kani::cover!(new_w > old_w, "growing update");
+    kani::cover!(new_w < old_w, "shrinking update");
+    std::mem::forget(st);
+}
